@@ -26,6 +26,7 @@ from xdis import wordcode
 from xdis.cross_dis import (
     findlabels,
     findlinestarts,
+    findlinestarts_38,
     findlinestarts_unsigned,
     get_jump_target_maps,
 )
@@ -127,7 +128,12 @@ def init_opdata(loc, from_mod, version_tuple=None, is_pypy=False):
         loc["get_jump_targets"] = findlabels
         loc["get_jump_target_maps"] = get_jump_target_maps
     else:
-        loc["findlinestarts"] = findlinestarts
+        # dis of 3.8 and 3.9 stops at co_lnotab entries past the end of the bytecode
+        loc["findlinestarts"] = (
+            findlinestarts_38
+            if (3, 8) <= tuple(version_tuple[:2]) < (3, 10)
+            else findlinestarts
+        )
         loc["findlabels"] = wordcode.findlabels
         loc["get_jump_targets"] = wordcode.findlabels
         loc["get_jump_target_maps"] = wordcode.get_jump_target_maps
